@@ -23,6 +23,78 @@ def small_valid(rng, tier, n_random, maxlen):
     return out, dist
 
 
+CODE_TABLES = {
+    'qos': [0, 1, 2], 'crc3': [0, 1, 2, 3, 4, 5], 'src3': [0, 1, 2, 128], 'rh5': [0, 1, 2],
+    'connect5': pk.CODES5['connack'], 'disconnect5': pk.CODES5['disconnect'], 'auth5': pk.CODES5['auth'],
+    'puback5': pk.CODES5['puback'], 'pubrec5': pk.CODES5['pubrec'], 'pubrel5': pk.CODES5['pubrel'],
+    'pubcomp5': pk.CODES5['pubcomp'], 'subscribe5': pk.CODES5['suback'], 'unsubscribe5': pk.CODES5['unsuback'],
+    'propid5': sorted(list(pk.PROP_TYPES) + [38]),
+}
+
+
+def code_cases():
+    return ['code %s %d' % (t, b) for t in sorted(CODE_TABLES) for b in range(256)]
+
+
+def judge_code(case, line):
+    """every from_u8 table accepts exactly the numbers of the standard's table, and `variant as u8` of the
+    value it returns is the number it was given (so the decode and encode sides of an enum agree)"""
+    _, t, b = case.split()
+    b = int(b)
+    if b in CODE_TABLES[t]:
+        if line != 'ok %d' % b:
+            return 'table %s: from_u8(%d) -> %s; the standard assigns this number, and `as u8` must give it back' % (t, b, line[:60])
+    elif line.startswith('ok'):
+        return 'table %s accepts %d, which the standard does not assign' % (t, b)
+    return None
+
+
+PVAL = {'bool': b'\x01', 'qos': b'\x01', 'u16': b'\x00\x07', 'u32': b'\x00\x00\x00\x07', 'var': b'\x07', 'str': b'\x00\x01a',
+        'topic': b'\x00\x01a', 'bin': b'\x00\x01a'}
+
+
+def carrier_matrix():
+    """every property identifier (the 26 assigned ones, User Property, and unassigned numbers) as the only
+    property of every property section of every v5 packet type: (bytes, kind, id, expected) where expected is
+    'ok' / the documented error.  The finite table 'which packet may carry which property', exhaustively."""
+    base = {
+        'connect': ('connect', 5, 1, 10, ({}, []), b'c', None, None, None),
+        'will': ('connect', 5, 1, 10, ({}, []), b'c', (0, 0, ({}, []), b'w', b'm'), None, None),
+        'connack': ('connack', 0, 0, ({}, [])),
+        'publish': ('publish', 0, 0, 0, 0, b't', ({}, []), b'p'),
+        'puback': ('puback', 3, 0, ({}, [])), 'pubrec': ('pubrec', 3, 0, ({}, [])),
+        'pubrel': ('pubrel', 3, 0, ({}, [])), 'pubcomp': ('pubcomp', 3, 0, ({}, [])),
+        'subscribe': ('subscribe', 3, ({}, []), [(b'a', 0, 0, 0, 0)]),
+        'suback': ('suback', 3, ({}, []), [0]), 'unsuback': ('unsuback', 3, ({}, []), [0]),
+        'unsubscribe': ('unsubscribe', 3, ({}, []), [b'a']),
+        'disconnect': ('disconnect', 0, ({}, [])), 'auth': ('auth', 0, ({}, [])),
+    }
+    out = []
+    for kind, p in base.items():
+        seen = []
+        pk.encode('v5', p, seen=seen, spell={'short': False})
+        which = [(k, i) for (k, i, ctx) in seen if k == 'props']
+        k, i = which[-1] if kind == 'will' else which[0]
+        for pid_ in sorted(pk.PROP_TYPES) + [38, 0, 4, 10, 20, 27, 43, 127, 255]:
+            if pid_ == 38:
+                body = b'\x26\x00\x01k\x00\x01v'
+            elif pid_ in pk.PROP_TYPES:
+                body = bytes([pid_]) + PVAL[pk.PROP_TYPES[pid_]]
+            else:
+                body = bytes([pid_, 0])
+            b = pk.encode('v5', p, fault=(k, i, lambda o, c, body=body: pk.vbi(len(body)) + body), spell={'short': False})
+            if pid_ == 38 or pid_ in pk.PROPS[kind]:
+                exp = 'ok'
+            elif pid_ not in pk.PROP_TYPES:
+                exp = 'err InvalidPropertyId %d' % pid_
+            elif kind == 'will':
+                exp = 'err InvalidWillProperty %d' % pid_
+            else:
+                exp = 'err InvalidProperty %s %d' % (kind, pid_)
+            out.append((b, kind, pid_, exp))
+    return out
+
+
 # ====================================================================== C05
 def compositions(n):
     """all ways to cut n bytes into consecutive chunks: tuples of cut positions (subset of 1..n-1)"""
@@ -627,6 +699,12 @@ class C20(Base):
                 self.meta[c] = (row, exp)
                 cs.append(c)
                 hist(dist, row)
+        for b, kind, pid_, exp in carrier_matrix():
+            c = 'dec v5 ' + pk.hx(b)
+            if c not in self.meta:
+                self.meta[c] = ('carrier-matrix:%s:%d' % (kind, pid_), {'all': exp})
+                cs.append(c)
+                hist(dist, 'carrier-matrix')
         return cs, dist
 
     def judge(self, case, line, spec, ctx, i):
@@ -638,6 +716,10 @@ class C20(Base):
         for fe in ('block', 'async', 'poll'):
             want = exp.get(fe, exp.get('all'))
             if want is None:
+                continue
+            if want == 'ok':
+                if not f.get(fe, '').startswith('ok '):
+                    return 'catalogue row %s: %s decoder rejects a permitted property: %s' % (row, fe, f.get(fe, '')[:120])
                 continue
             if f.get(fe) != want:
                 return 'catalogue row %s: %s decoder returns %s, documented: %s' % (row, fe, f.get(fe, '')[:120], want[:120])
@@ -652,7 +734,7 @@ class C20(Base):
 @register
 class C04(Base):
     id = 'C04'
-    ops = ['dec', 'hdr']
+    ops = ['dec', 'hdr', 'code']
     profiles = ('release',)
     rule = ('complete frames (header + exactly the declared body) of both families: grammar-generated valid packets, legal '
             'non-canonical spellings (short forms spelled out, permuted and interleaved properties), the same frames with '
@@ -699,6 +781,12 @@ class C04(Base):
                 for rl in (0, 1, 2, 5, 127, 128):
                     cs.append('hdr %s %d %d' % (fam, cb, rl))
                     hist(dist, 'hdr')
+        for c in code_cases():
+            cs.append(c)
+            hist(dist, 'code-table')
+        for b, kind, pid_, exp in carrier_matrix():
+            cs.append('dec v5 ' + pk.hx(b))
+            hist(dist, 'property-carrier-matrix')
         return cs, dist
 
     def spec_phase(self, cases, act, workdir, prof):
@@ -731,6 +819,8 @@ class C04(Base):
 
     def judge(self, case, line, spec, ctx, i):
         t = case.split()
+        if t[0] == 'code':
+            return judge_code(case, line)
         if t[0] == 'hdr':
             want = self.hdr_rule(t[1], int(t[2]), int(t[3]))
             if line != want:
@@ -758,7 +848,7 @@ class C04(Base):
         return None
 
     def project(self, case, line):
-        if case.startswith('hdr'):
+        if case.startswith('hdr') or case.startswith('code'):
             return line
         f = fields(line)
         pol = f.get('poll', '')
